@@ -1,7 +1,7 @@
 """Seeded generators for grids, case sets and constants (plain random.Random, exact replay)."""
 import itertools
 
-ARG_POOL = ["a", "b", "c", "d", "e", "g", "n", "k", "p", "q", "beta", "Z", "m_1"]
+ARG_POOL = ["a", "b", "c", "d", "e", "g", "n", "k", "p", "q", "beta", "Z", "m_1", "dt", "nx", "x0"]
 CONST_POOL = ["c0", "c1", "c2", "kappa", "W"]
 STR_POOL = ["u", "v", "w", "aa", "ab", "zz", "Q", "left", "right", "x y", "é", "10", "9"]
 
